@@ -954,6 +954,14 @@ func (c *Ctx) ruleTerm(rule string, roots []*ssa.Function, schemaMode bool) {
 				continue
 			}
 		}
+		if why := c.feedersGuarded(e); why != "" {
+			k := key(rule, "class A", c.M.Key(e.from)+" -> "+c.M.Key(e.to)+" ("+e.desc+"): every value of the schema that is fed in is examined first")
+			if !seenA[k] {
+				seenA[k] = true
+				c.R.Except(rule, k, c.M.InstrPos(e.site), "recursion through a reference cycle that is re-seeded with values of the schema", why)
+			}
+			continue
+		}
 		k := key(rule, "class A", c.M.Key(e.from)+" -> "+c.M.Key(e.to)+" ("+e.desc+")"+c.entryGuards(edges, e))
 		if seenA[k] {
 			continue
@@ -1561,4 +1569,318 @@ func (c *Ctx) isSDKValue(v ssa.Value) bool {
 		}
 	}
 	return false
+}
+
+// feedersGuarded (exception E-DEFAULTGUARD): the call e hands on what it looks up in a map M that its function fills -
+// with the caller's input, and with values of the schema (a property's default value, the defaults of an unset
+// sub-object). It is the values of the schema that make the edge class A. The exception applies where every one of them
+// enters M in a way whose boundedness has a structural witness:
+//
+//	(a) a store M[k] = v of a value v reached from the receiver is dominated by the false outcome of a call G(.., v, ..)
+//	    of a bool function, and the walk G makes is bounded: the function it recurses in calls itself only with a
+//	    strict component of a data parameter, or with its list parameter extended by an element X of an SDK type
+//	    (finitely many) behind the negative outcome of slices.Contains(list, X);
+//	(b) a callee that is handed M stores into it only where the struct field the value is meant for was found to be
+//	    neither a pointer nor an interface (or there is no struct field), and its own recursion carries a visited path
+//	    (decided separately, as a class A self edge).
+//
+// NOT checked by the machine, confirmed by reading: that G walks the value the way the recursion will (so that "G found
+// no place where v is needed again" means the recursion does not come back to this store with v), and that values built
+// under (b) nest only as deep as the Go struct types do, which cannot be recursive without a pointer or an interface.
+// Remove a guard, store another value of the schema, or drop one of the two field kinds, and the exception does not
+// apply: the edge is the violation it was.
+func (c *Ctx) feedersGuarded(e termEdge) string {
+	fn := e.from
+	if len(fn.Params) == 0 {
+		return ""
+	}
+	// the map the argument is looked up in
+	var m ssa.Value
+	for _, a := range e.site.Common().Args {
+		v := a
+		for i := 0; i < 4 && m == nil; i++ {
+			switch x := v.(type) {
+			case *ssa.Extract:
+				v = x.Tuple
+			case *ssa.Lookup:
+				if _, isMake := x.X.(*ssa.MakeMap); isMake {
+					m = x.X
+				}
+				i = 4
+			default:
+				i = 4
+			}
+		}
+	}
+	if m == nil {
+		return ""
+	}
+	guards, callees := []string{}, []string{}
+	for _, b := range fn.Blocks {
+		for _, in := range b.Instrs {
+			switch x := in.(type) {
+			case *ssa.MapUpdate:
+				if x.Map != m {
+					continue
+				}
+				v := x.Value
+				if mi, ok := v.(*ssa.MakeInterface); ok {
+					v = mi.X
+				}
+				if call, ok := core.Unwrap(v).(*ssa.Call); ok {
+					if _, _, _, isOp := c.opCall(&call.Call); isOp {
+						continue // the result of a data operation: output, not a value of the schema
+					}
+				}
+				if ex, ok := v.(*ssa.Extract); ok {
+					if call, ok := ex.Tuple.(*ssa.Call); ok {
+						if _, _, _, isOp := c.opCall(&call.Call); isOp {
+							continue
+						}
+					}
+				}
+				if !reachedFrom(v, fn.Params[0], 0) {
+					continue // from the input
+				}
+				g := c.guardOf(fn, b, x.Value)
+				if g == nil {
+					return ""
+				}
+				guards = append(guards, c.M.Key(g))
+			case *ssa.Call:
+				passes := false
+				for _, a := range x.Call.Args {
+					if a == m {
+						passes = true
+					}
+				}
+				if !passes {
+					continue
+				}
+				sc := x.Call.StaticCallee()
+				if sc == nil || len(sc.Blocks) == 0 {
+					return ""
+				}
+				if !c.storesOnlyForValueFields(sc) {
+					return ""
+				}
+				callees = append(callees, c.M.Key(sc))
+			}
+		}
+	}
+	if len(guards) == 0 {
+		return ""
+	}
+	why := "E-DEFAULTGUARD: the values of the schema that " + c.M.Key(fn) + " puts into the map it unserializes from are stored only where " + strings.Join(guards, ", ") + " answered false for that value (a walk whose recursion either descends into its data or extends a list of SDK-typed entries behind a negative slices.Contains)"
+	if len(callees) > 0 {
+		why += "; " + strings.Join(callees, ", ") + " stores into it only for struct fields that are neither pointers nor interfaces"
+	}
+	return why + ". That the walk covers the way the recursion takes, and that built values nest no deeper than the Go struct types, is confirmed by reading, not by the checker"
+}
+
+// guardOf: the bool function G whose false outcome, for a call with v among its arguments, holds on every path to b -
+// provided the walk G makes is bounded (boundedWalk).
+func (c *Ctx) guardOf(fn *ssa.Function, b *ssa.BasicBlock, v ssa.Value) *ssa.Function {
+	var found *ssa.Function
+	est := func(cond core.Cond) bool {
+		call, ok := cond.V.(*ssa.Call)
+		if !ok || cond.True {
+			return false
+		}
+		g := call.Call.StaticCallee()
+		if g == nil || g.Signature.Results().Len() != 1 {
+			return false
+		}
+		if bt, isBasic := g.Signature.Results().At(0).Type().Underlying().(*types.Basic); !isBasic || bt.Kind() != types.Bool {
+			return false
+		}
+		has := false
+		for _, a := range call.Call.Args {
+			if a == v {
+				has = true
+			}
+		}
+		if !has || !c.boundedWalk(g, 0) {
+			return false
+		}
+		found = g
+		return true
+	}
+	if core.MustHold(fn, est)[b] {
+		return found
+	}
+	return nil
+}
+
+// boundedWalk: g is, or does nothing but call (depth <= 2), a function all of whose calls of itself hand on a strict
+// component of one of its data parameters, or its list parameter extended by an SDK-typed X behind !slices.Contains(list, X).
+func (c *Ctx) boundedWalk(g *ssa.Function, depth int) bool {
+	if g == nil || len(g.Blocks) == 0 || depth > 2 {
+		return false
+	}
+	selfCalls := 0
+	var others []*ssa.Function
+	for _, b := range g.Blocks {
+		for _, in := range b.Instrs {
+			call, ok := in.(*ssa.Call)
+			if !ok {
+				continue
+			}
+			sc := call.Call.StaticCallee()
+			if sc == nil {
+				continue
+			}
+			if sc == g {
+				selfCalls++
+				continue
+			}
+			if sc.Pkg == g.Pkg && !call.Call.IsInvoke() && strings.Contains(c.M.Key(sc), "efault") {
+				others = append(others, sc)
+			}
+		}
+	}
+	if selfCalls == 0 {
+		// a front door: it hands on to the walk
+		for _, h := range others {
+			if c.boundedWalk(h, depth+1) {
+				return true
+			}
+		}
+		return false
+	}
+	sum := c.termSummary(g)
+	for _, b := range g.Blocks {
+		for _, in := range b.Instrs {
+			call, ok := in.(*ssa.Call)
+			if !ok || call.Call.StaticCallee() != g {
+				continue
+			}
+			descends, extended, sameLists := false, false, true
+			for ai, a := range call.Call.Args {
+				if ai >= len(g.Params) {
+					return false
+				}
+				if _, isSlice := a.Type().Underlying().(*types.Slice); isSlice {
+					if a == ssa.Value(g.Params[ai]) {
+						continue
+					}
+					sameLists = false
+					app, ok := a.(*ssa.Call)
+					if !ok {
+						return false
+					}
+					bi, ok := app.Call.Value.(*ssa.Builtin)
+					if !ok || bi.Name() != "append" || len(app.Call.Args) != 2 {
+						return false
+					}
+					base := app.Call.Args[0]
+					for {
+						if sl, ok := base.(*ssa.Slice); ok {
+							base = sl.X
+							continue
+						}
+						break
+					}
+					if base != ssa.Value(g.Params[ai]) {
+						return false
+					}
+					elems := variadicElems(app.Call.Args[1])
+					if len(elems) != 1 || elems[0] == nil || !c.isSDKType(elems[0].Type()) {
+						return false
+					}
+					x := elems[0]
+					notThere := func(cond core.Cond) bool {
+						cc, ok := cond.V.(*ssa.Call)
+						if !ok || cond.True || len(cc.Call.Args) != 2 {
+							return false
+						}
+						if n := core.StaticCalleeName(&cc.Call); !strings.HasPrefix(n, "slices.Contains") {
+							return false
+						}
+						return cc.Call.Args[0] == ssa.Value(g.Params[ai]) && sameValue(cc.Call.Args[1], x)
+					}
+					if !core.MustHold(g, notThere)[b] {
+						return false
+					}
+					extended = true
+					continue
+				}
+				// a strict component of a data parameter?
+				for l := range sum.L[a] {
+					if l.param == ai && l.kind == kSub {
+						descends = true
+					}
+				}
+			}
+			if !(extended || (descends && sameLists)) {
+				return false
+			}
+		}
+	}
+	return true
+}
+
+// sameValue: a and b are the same SSA value, or loads of the same local.
+func sameValue(a, b ssa.Value) bool {
+	if a == b {
+		return true
+	}
+	la, oka := a.(*ssa.UnOp)
+	lb, okb := b.(*ssa.UnOp)
+	if oka && okb && la.X == lb.X {
+		return true
+	}
+	return false
+}
+
+// storesOnlyForValueFields: every update of a map parameter in g sits where, on every path, the lookup of the struct
+// field the value is meant for failed, or the field's kind was found to be neither Pointer nor Interface.
+func (c *Ctx) storesOnlyForValueFields(g *ssa.Function) bool {
+	n := 0
+	fieldKind := func(cond core.Cond, kind int64) bool {
+		// lookup in the field cache failed
+		if ex, ok := cond.V.(*ssa.Extract); ok && ex.Index == 1 && !cond.True {
+			if lk, ok := ex.Tuple.(*ssa.Lookup); ok && lk.CommaOk && strings.HasSuffix(typeStr(lk.X.Type()), "reflect.StructField") {
+				return true
+			}
+		}
+		bin, ok := cond.V.(*ssa.BinOp)
+		if !ok || (bin.Op != token.EQL && bin.Op != token.NEQ) || (bin.Op == token.EQL) == cond.True {
+			return false
+		}
+		for _, pair := range [][2]ssa.Value{{bin.X, bin.Y}, {bin.Y, bin.X}} {
+			call, ok := pair[0].(*ssa.Call)
+			if !ok || !call.Call.IsInvoke() || call.Call.Method.Name() != "Kind" {
+				continue
+			}
+			if k, isConst := core.ConstInt(pair[1]); isConst && k == kind {
+				// Kind() of the Type of a StructField
+				if derivedFrom(call.Call.Value, func(x ssa.Value) bool {
+					fa, ok := x.(*ssa.FieldAddr)
+					return ok && strings.HasSuffix(typeStr(fa.X.Type()), "reflect.StructField")
+				}) {
+					return true
+				}
+			}
+		}
+		return false
+	}
+	notPtr := core.MustHold(g, func(cond core.Cond) bool { return fieldKind(cond, 22) })
+	notIface := core.MustHold(g, func(cond core.Cond) bool { return fieldKind(cond, 20) })
+	for _, b := range g.Blocks {
+		for _, in := range b.Instrs {
+			mu, ok := in.(*ssa.MapUpdate)
+			if !ok {
+				continue
+			}
+			if _, isParam := mu.Map.(*ssa.Parameter); !isParam {
+				continue
+			}
+			n++
+			if !notPtr[b] || !notIface[b] {
+				return false
+			}
+		}
+	}
+	return n > 0
 }
